@@ -48,6 +48,11 @@ import (
 type HookSpec struct {
 	Val []string `json:"val,omitempty"`
 	Mut []string `json:"mut,omitempty"`
+	// class Ctx (ctx.go): the `kubernetes` bindings of the hook and, parallel to Val / Mut, the further
+	// parameters of the admission bindings (shorter lists = no parameters)
+	Kube []KubeB `json:"kube,omitempty"`
+	ValP []Param `json:"valp,omitempty"`
+	MutP []Param `json:"mutp,omitempty"`
 }
 
 type Req struct {
@@ -77,6 +82,9 @@ type Input struct {
 	// its files) or to its end.  Afterwards every request is let run to its end, in order.
 	Conc  bool  `json:"conc,omitempty"`
 	Sched []int `json:"sched,omitempty"`
+	// Ctx: the hook processes read their binding context before they answer, and what they read is
+	// observed (ctx.go); the bindings may carry `group` / `includeSnapshotsFrom`
+	Ctx bool `json:"ctx,omitempty"`
 }
 
 type Reg struct {
@@ -115,6 +123,8 @@ type ReqObs struct {
 	// ("" no process ran, "empty", "nonempty", "missing") and the files it was given
 	Initial string   `json:"initial,omitempty"`
 	Paths   []string `json:"paths,omitempty"`
+	// class Ctx: what the hook process read in $BINDING_CONTEXT_PATH
+	Shown *Shown `json:"shown,omitempty"`
 }
 type Obs struct {
 	Regs []Reg    `json:"regs"`
@@ -143,6 +153,16 @@ if [ -d "$S/conc" ]; then
 fi
 cp "$BINDING_CONTEXT_PATH" "$D/ctx"
 echo "$H" >> "$D/who"
+if [ -f "$S/check" ]; then
+  # class Ctx: look before answering.  The scripted answer is given only to the admission request
+  # with the expected uid; a hook that is not shown the request denies
+  T=$(grep -o '^    "type": *"[A-Za-z]*"' "$D/ctx" | head -n 1 | sed 's/.*: *"//; s/"//')
+  U=$(grep -c '"uid": *"uid-'"$(cat "$S/check")"'"' "$D/ctx")
+  if [ "$T" != "Validating" ] && [ "$T" != "Mutating" ] || [ "$U" = "0" ]; then
+    printf '{"allowed":false,"message":"hookmsg-99"}' > "$VALIDATING_RESPONSE_PATH"
+    exit 0
+  fi
+fi
 if [ -p "$D/ev" ]; then
   # hold point 1: started.  Report the files given and what they hold, wait to be moved on
   ini=empty
@@ -503,18 +523,27 @@ func Run(in Input) (o Obs) {
 	for h, hs := range in.Hooks {
 		name := fmt.Sprintf("h%02d.sh", h)
 		cfg := map[string]any{"configVersion": "v1"}
-		mk := func(names []string) []map[string]any {
+		mk := func(names []string, params []Param) []map[string]any {
 			var bs []map[string]any
-			for _, n := range names {
-				bs = append(bs, map[string]any{"name": n, "rules": rule})
+			for i, n := range names {
+				m := map[string]any{"name": n, "rules": rule}
+				if i < len(params) {
+					params[i].into(m)
+				}
+				bs = append(bs, m)
 			}
 			return bs
 		}
 		if len(hs.Val) > 0 {
-			cfg["kubernetesValidating"] = mk(hs.Val)
+			cfg["kubernetesValidating"] = mk(hs.Val, hs.ValP)
 		}
 		if len(hs.Mut) > 0 {
-			cfg["kubernetesMutating"] = mk(hs.Mut)
+			cfg["kubernetesMutating"] = mk(hs.Mut, hs.MutP)
+		}
+		if kube := kubeConfig(hs.Kube); len(kube) > 0 {
+			// they never fire here (no monitor is started): they exist so that an admission binding can
+			// include their snapshots by name or by group
+			cfg["kubernetes"] = kube
 		}
 		if len(hs.Val)+len(hs.Mut) == 0 {
 			cfg["onStartup"] = 1
@@ -609,8 +638,11 @@ func Run(in Input) (o Obs) {
 	} else {
 		for qi, q := range in.Reqs {
 			ro := ReqObs{Path: env.pathOf(q)}
-			for _, f := range []string{"ctx", "who", "resp", "exit", "kpatch", "metrics", "conv"} {
+			for _, f := range []string{"ctx", "who", "resp", "exit", "kpatch", "metrics", "conv", "check"} {
 				_ = os.Remove(filepath.Join(state, f))
+			}
+			if in.Ctx {
+				_ = os.WriteFile(filepath.Join(state, "check"), []byte(strconv.Itoa(q.Uid)+"\n"), 0o644)
 			}
 			if !env.scriptHook(state, q, qi) {
 				return
@@ -619,6 +651,9 @@ func Run(in Input) (o Obs) {
 			router.ServeHTTP(rec, env.request(q, ro.Path))
 			parseAnswer(rec, &ro)
 			readRan(state, q, &ro)
+			if in.Ctx {
+				readShown(state, &ro)
+			}
 			env.sideEffects(qi, &ro)
 			o.Reqs = append(o.Reqs, ro)
 		}
@@ -857,6 +892,9 @@ func Render(in Input, obs *Obs, crash string) core.Case {
 	}
 	if in.Conc {
 		return renderConc(in, obs, c)
+	}
+	if in.Ctx {
+		return renderCtx(in, obs, c)
 	}
 	hooks := core.CoqList(in.Hooks, func(h HookSpec) string {
 		return fmt.Sprintf("mkHook %s %s", core.CoqList(h.Val, core.CoqBytes), core.CoqList(h.Mut, core.CoqBytes))
@@ -1333,11 +1371,13 @@ func Gen(r *core.Rng, tier string) ([]core.In[Input], bool) {
 	}
 	// requests that overlap in time (conc.go); generated last so that the streams above are what they were
 	ins = append(ins, genConc(g, tier)...)
+	// bindings with group / includeSnapshotsFrom, hooks that read their context (ctx.go)
+	ins = append(ins, genCtx(g, tier)...)
 	return ins, false
 }
 
 var Driver = core.Driver[Input, Obs]{
-	Spec: core.Spec{Property: "C14", Imports: []string{"C14_Model", "C14_Spec", "C14_Corr"}, Corr: "C14_Corr", Triggers: nil, ShrinkKey: "reqs",
-		Rule: "one case = 1-3 real hooks (bash stubs) with kubernetesValidating/kubernetesMutating bindings loaded by the real hook.Manager, the real initValidatingWebhookManager event handler on the real admission router (httptest, no listener), and a list of AdmissionReview posts, each with a scripted hook exit status, response file and the other files shell-operator processes after the exit of the hook process ($KUBERNETES_PATCH_PATH on a fake cluster, $METRICS_PATH, $CONVERSION_RESPONSE_PATH: empty / processed without error / failing the run at parse time / failing it when applied); observed: marker Kubernetes object applied, marker metric applied, registered path of every binding, HTTP status / AdmissionResponse (uid, allowed, code, message, warnings, patch, patchType), which hook process ran for which binding. Streams: corpus; exhaustive (every tier): 12 path kinds {registered validating, registered mutating, unknown webhook id, unknown configuration id, empty, extra segment, doubled slashes, trailing slash, configuration only, id only, un-normalised name} x exit {0,1} x 28 response files {empty, allow, deny(+message), allow+warnings, allow+patch, all fields, truncated x2, wrong types x6, non-JSON x2, null, {}, unknown members, empty patch, object followed by other data x5, object followed by white space} + every request-less / malformed body / wrong content type; random (distinct webhook ids); colliding-ids (binding names with equal SafeURLString); trailing-data (a complete response object followed by other data — the repaired defect F19); exhaustive-post-exit (every tier): every variant of the three side files alone (19 Kubernetes-operation files, 20 metric files, 6 conversion responses) + 12 combinations showing the order of the steps x 8 (exit, response file) on a validating binding, x 2 (allow with patch and warnings, deny) on a mutating one; post-exit-failure (every 4th random case: exit 0 + valid verdict + a failing step after the exit); a third of all random requests carry side files. CONCURRENT class (conc.go): 2-6 reviews posted to the router from goroutines of their own, their scripted hook processes held on FIFOs at two points (started / has written its files) and moved on in the order of the case's schedule, every request observed as above plus what its hook process found in its output files at start; streams concurrent-exhaustive-pairs (every tier: all 20 orders of {A starts, A writes, A ends, B starts, B writes, B ends} x pairs of runs differing in verdict, message, warnings, patch, exit status and in the other files they hand back, on one binding / a validating and a mutating binding of one hook / two hooks: 5 pairs quick, 11 thorough) and concurrent-random (1-3 hooks, 2-6 requests of every kind incl. unknown paths, malformed bodies, failing exits, side files; random interleaving, sometimes cut short; two thirds biased to several requests for one binding). non-trivial = at least 2 requests, one answered allowed and one hook run (concurrent class: at least two hook processes open at the same time). distinct = distinct input text"},
+	Spec: core.Spec{Property: "C14", Imports: []string{"C14_Model", "C14_Spec", "C14_CtxModel", "C14_Corr"}, Corr: "C14_Corr", Triggers: nil, ShrinkKey: "reqs",
+		Rule: "one case = 1-3 real hooks (bash stubs) with kubernetesValidating/kubernetesMutating bindings loaded by the real hook.Manager, the real initValidatingWebhookManager event handler on the real admission router (httptest, no listener), and a list of AdmissionReview posts, each with a scripted hook exit status, response file and the other files shell-operator processes after the exit of the hook process ($KUBERNETES_PATCH_PATH on a fake cluster, $METRICS_PATH, $CONVERSION_RESPONSE_PATH: empty / processed without error / failing the run at parse time / failing it when applied); observed: marker Kubernetes object applied, marker metric applied, registered path of every binding, HTTP status / AdmissionResponse (uid, allowed, code, message, warnings, patch, patchType), which hook process ran for which binding. Streams: corpus; exhaustive (every tier): 12 path kinds {registered validating, registered mutating, unknown webhook id, unknown configuration id, empty, extra segment, doubled slashes, trailing slash, configuration only, id only, un-normalised name} x exit {0,1} x 28 response files {empty, allow, deny(+message), allow+warnings, allow+patch, all fields, truncated x2, wrong types x6, non-JSON x2, null, {}, unknown members, empty patch, object followed by other data x5, object followed by white space} + every request-less / malformed body / wrong content type; random (distinct webhook ids); colliding-ids (binding names with equal SafeURLString); trailing-data (a complete response object followed by other data — the repaired defect F19); exhaustive-post-exit (every tier): every variant of the three side files alone (19 Kubernetes-operation files, 20 metric files, 6 conversion responses) + 12 combinations showing the order of the steps x 8 (exit, response file) on a validating binding, x 2 (allow with patch and warnings, deny) on a mutating one; post-exit-failure (every 4th random case: exit 0 + valid verdict + a failing step after the exit); a third of all random requests carry side files. CONCURRENT class (conc.go): 2-6 reviews posted to the router from goroutines of their own, their scripted hook processes held on FIFOs at two points (started / has written its files) and moved on in the order of the case's schedule, every request observed as above plus what its hook process found in its output files at start; streams concurrent-exhaustive-pairs (every tier: all 20 orders of {A starts, A writes, A ends, B starts, B writes, B ends} x pairs of runs differing in verdict, message, warnings, patch, exit status and in the other files they hand back, on one binding / a validating and a mutating binding of one hook / two hooks: 5 pairs quick, 11 thorough) and concurrent-random (1-3 hooks, 2-6 requests of every kind incl. unknown paths, malformed bodies, failing exits, side files; random interleaving, sometimes cut short; two thirds biased to several requests for one binding). CTX class (ctx.go): hooks whose kubernetesValidating / kubernetesMutating bindings carry the further documented parameters `group` (a group that names nothing, or one that has `kubernetes` bindings of the hook as members) and `includeSnapshotsFrom`, with 0-3 `kubernetes` bindings beside them (which never fire: no monitor is started); the hook process READS $BINDING_CONTEXT_PATH before it answers - it gives the scripted verdict only when it is shown an admission request (type Validating / Mutating, review.request.uid of this request), otherwise it denies with message 99; observed per request, beside everything above, WHAT THE HOOK READ field by field (binding, type, keys of snapshots, groupName, review.request.uid; the harness expects nothing about them) - compared with C14_CtxModel.ctx_request (HandleEvent with the parameters of the binding that owns the link, the group merge of the loader, UpdateSnapshots, MapV1 statement by statement; snapshot keys as a set) and judged by C14_CtxSpec.P_ctx = C14_Spec.P + handed (the hook that ran read THE REQUEST under the type and name of its binding, never as a group) + snapshots_sound. Streams ctx-corpus (plain + grouped + including bindings of one hook; two bindings with one webhook id and different parameters), ctx-exhaustive (every tier: 10 kinds of parameters {none, group naming nothing, group with members, includeSnapshotsFrom one / two, both, include of a member, ...} x hook with / without kubernetes bindings x validating / mutating, each with allow, deny+message, allow+warnings(+patch), exit 1, empty response, unknown path, and requests to a binding without parameters of the same hook and of another hook), ctx-random (40 quick / 1000 thorough: random hooks as in the random stream incl. colliding ids, group 55%, includeSnapshotsFrom 35%). Tags class:ctx, served-by:<binding-with-group|...>, ctx-type:<type read>, ctx-snapshots:<n|absent>. non-trivial = at least 2 requests, one answered allowed and one hook run (concurrent class: at least two hook processes open at the same time; ctx class: one answered allowed and one run served by a binding with parameters). distinct = distinct input text"},
 	Gen: Gen, Run: Run, Render: Render, PerShard: 30, Workers: 8, CaseTimout: 300 * time.Second,
 }
